@@ -93,6 +93,9 @@ def run_property(mod, ctx, only=None, do_hunt=True):
         sys.stderr.write("  failing: %s\n" % "; ".join(out.get("failed", [])[:4]))
     for r, why in inconclusive:
         sys.stderr.write("[%s] INCONCLUSIVE %s: %s | %s\n" % (pid, r.key(), why, "; ".join(r.failed[:3])))
+    problems = spec.get("problems", [])
+    for pr in problems:
+        sys.stderr.write("[%s] GENERATOR PROBLEM (not checkable): %s\n" % (pid, pr))
     if build_err:
         sys.stderr.write("[%s] inconclusive: build error\n" % pid)
     lemma_bad = [l for l in lemma_results if l["verdict"] != "unsat"]
@@ -105,7 +108,7 @@ def run_property(mod, ctx, only=None, do_hunt=True):
                      % (pid, ctx.tier, len(proved), len(all_results), n_tags, len(violations), len(known_hits), len(inconclusive), wall))
     if violations:
         return 1
-    if inconclusive or build_err or not all_results or lemma_bad:
+    if inconclusive or build_err or not all_results or lemma_bad or problems:
         return 2
     return 0
 
@@ -191,6 +194,7 @@ def write_evidence(pid, ctx, spec, results, known_hits, violations, inconclusive
             "functions_encoded": spec.get("functions", []),
             "bounds": spec.get("bounds", {}),
             "outside_claim": spec.get("not_decided", []),
+            "generator_problems": spec.get("problems", []),
             "skeleton_space": spec.get("skeleton_space", {}),
             "solver_time_s": round(sum(r.solve_s for r in results), 2),
             "symex_time_s": round(sum(r.symex_s for r in results), 2),
